@@ -1,4 +1,5 @@
 import IwModel.Lemmas.FsmLife
+import IwModel.Lemmas.FsmBytes
 /-! # C10 — the block allocator never hands out space that is already in use
 
 Property theorems only.  `Inv` is the allocator invariant of C11 (`IwModel/Lemmas/FsmInv.lean`); it holds after every
@@ -147,5 +148,51 @@ theorem realloc_fresh (h : Heur) {s : St} (hI : Inv s) (nlenB addrB olenB : Nat)
 
 /-- non-vacuity: on a concrete new file an allocation succeeds, so the hypotheses of the theorems above are met -/
 example : Inv (openNew 6 64 0 0 false).1 := inv_openNew (by decide) (by decide) (by decide) (by decide)
+
+/-! ### The bytes of a reallocated region
+
+`Model/FsmBytes.lean` runs `reallocate` over the bytes of the pool: `Fsm.reallocate` on the blocks; on the pool first the
+allocator's own stores up to the moment `_fsm_blk_allocate_lw` returns (`w1`), then `pool.copy(old address, old length, new
+address)` of the exfile model (`Exf.copy`, C12) when the region moved, then the stores of `_fsm_blk_deallocate_lw` (`w2`).
+`Held s i`: block `i` is allocated, not one of the bitmap's blocks, behind the header. `Keeps t q q'`: `q'` is `q` except on
+bytes of blocks that are not `Held` in `t`, and not shorter — what a store of the allocator itself does to the pool. -/
+
+open IwModel.FsmB in
+/-- **`reallocate` preserves `min(old, new)` bytes, for every state and request.** Let the caller hold the old range (every
+    block `Held`), let its bytes be on disk, let the pool have shared windows, and let the allocator's own stores (`w1` before the
+    copy, `w2` after it) be of the kind that leaves held blocks alone. Then whenever `reallocate` succeeds — same number of
+    blocks, shrunk in place, or grown into a new region with any number of bitmap doublings inside the call, any flags, any
+    heuristic — `pool.copy` succeeds (source and destination never overlap forward: the new blocks were held by nobody), and
+    reading `min(old length, new length)` bytes at the returned address gives exactly the bytes that stood at the old address
+    before the call. -/
+theorem realloc_keeps_bytes (h : Heur) {s : St} (hI : Inv s) (p : Exf.St) (w1 w2 : Exf.St → Exf.St) (nlenB addrB olenB : Nat)
+    (f : Flags) (hheld : ∀ i, addrB / bsz s ≤ i → i < addrB / bsz s + olenB / bsz s → Held s i)
+    (hdisk : addrB + olenB ≤ p.file.length)
+    (hw1 : Keeps s p.file (w1 p).file) (hs1 : Exf.AllShared (w1 p).slots) (hc1 : 0 < (w1 p).cbuf)
+    (hw2 : ∀ q, Keeps (reallocate h s nlenB addrB olenB f).1 q.file (w2 q).file)
+    (hok : (reallocate h s nlenB addrB olenB f).2.1 = .ok) :
+    (FsmB.reallocate h s p w1 w2 nlenB addrB olenB f).2.1 = .ok ∧
+    Exf.readAt (FsmB.reallocate h s p w1 w2 nlenB addrB olenB f).2.2.file (reallocate h s nlenB addrB olenB f).2.2.1
+        (min olenB (reallocate h s nlenB addrB olenB f).2.2.2.1) =
+      Exf.readAt p.file addrB (min olenB (reallocate h s nlenB addrB olenB f).2.2.2.1) :=
+  reallocate_keeps h hI p w1 w2 nlenB addrB olenB f hheld hdisk hw1 hs1 hc1 hw2 hok
+
+open IwModel.FsmB in
+/-- the hypotheses of `realloc_keeps_bytes` are what the allocator provides: the blocks a successful `allocate` returned are
+    held; an allocated range that passes the header/bitmap guard is held; a store of any bytes into the bitmap area, with the
+    pool grown on disk, keeps held blocks (the bitmap area consists of blocks no caller holds); and so does no store at all -/
+theorem realloc_hypotheses_met (h : Heur) {s : St} (hI : Inv s) :
+    (∀ lenB hintB f, (allocate h s lenB hintB f).2.1 = .ok →
+      ∀ i, (allocate h s lenB hintB f).2.2.1 / bsz (allocate h s lenB hintB f).1 ≤ i →
+        i < (allocate h s lenB hintB f).2.2.1 / bsz (allocate h s lenB hintB f).1 +
+            (allocate h s lenB hintB f).2.2.2 / bsz (allocate h s lenB hintB f).1 →
+        Held (allocate h s lenB hintB f).1 i) ∧
+    (∀ off len, 0 < len → guarded s off len = false → RangeAllocated s off len → ∀ i, off ≤ i → i < off + len → Held s i) ∧
+    (∀ size img (p : Exf.St), Keeps s p.file (bitmapStore s size img p).file) ∧
+    (∀ q : Bytes, Keeps s q q) :=
+  ⟨fun lenB hintB f hok => held_of_allocate h hI lenB hintB f hok,
+   fun _ _ hlen hg hra => held_of_allocated hI hlen hg hra,
+   fun size img p => bitmapStore_keeps hI size img p,
+   fun q => Keeps.refl s q⟩
 
 end IwModel.C10
